@@ -69,7 +69,10 @@ namespace
 	{
 	  assert (t.m_children.size () == 1);
 	  auto origin = std::make_shared <op_origin> (l);
-	  auto op = build_exec (t.child (0), l, rdv_ll, origin, bn, up);
+	  // Names bound inside the assertion are not visible outside.
+	  // Their state only lives while the assertion is evaluated.
+	  bindings scope {bn};
+	  auto op = build_exec (t.child (0), l, rdv_ll, origin, scope, up);
 	  return std::make_unique <pred_subx_any> (op, origin);
 	}
 
@@ -184,7 +187,8 @@ namespace
 	      else
 		{
 		  auto origin2 = std::make_shared <op_origin> (l);
-		  auto op = build_exec (tree, l, rdv_ll, origin2, bn, up);
+		  bindings scope {bn};
+		  auto op = build_exec (tree, l, rdv_ll, origin2, scope, up);
 		  strgr = std::make_shared <stringer_op> (l, strgr,
 							  origin2, op);
 		}
